@@ -175,6 +175,26 @@ theorem c10_run_checked (cfg : Cfg α) (acts : List Act) (h1 : noExt acts = true
   rw [hp, List.append_nil] at hw
   exact ⟨hw, hc⟩
 
+/-- **The known-finding path of the driver** (`cut=`: a schedule built from the echoed index of the response
+    that broke off): whenever a run without external close ends with `dropped = true`, the connection was
+    closed by a request's close decision, a closing request exists, and the wire is a (proper or improper)
+    prefix of `resp₁ ++ … ++ respₘ` — the prediction `pipedrv` prints on that path is a truncation of the
+    right stream at the closing request, never anything else. -/
+theorem c10_run_cut_checked (cfg : Cfg α) (acts : List Act) (h1 : noExt acts = true)
+    (hd : (run cfg init acts).dropped = true) :
+    (run cfg init acts).wire <+: ideal cfg ∧ (run cfg init acts).closed = true ∧
+    (run cfg init acts).byServer = true ∧ willClose cfg = true := by
+  have hne : ∀ a ∈ acts, a ≠ Act.extClose := by
+    intro a ha
+    have := List.all_eq_true.mp h1 a ha
+    simpa using this
+  have hi := inv_run (cfg := cfg) acts (inv_init cfg)
+  have he : (run cfg init acts).ext = false := by rw [run_ext cfg acts init hne]; rfl
+  have hc := run_dropped (cfg := cfg) acts init (by intro h; cases h) hd
+  rcases hi.why hc with hb | hx
+  · exact ⟨wire_prefix_of_inv hi, hc, hb, (hi.by_srv hb).2.1⟩
+  · rw [he] at hx; cases hx
+
 /-- the action lists the driver appends contain no external close -/
 theorem c10_completion_noExt (k : Nat) : noExt (completion k) = true := by
   induction k with
@@ -353,7 +373,8 @@ namespace SharedHeap
 
 /-- **Non-interference.**  Take any interleaving of the buffer operations of any number of
     connections on one shared pool.  If it is fault-free — no connection touches a buffer it does not
-    own or reads bytes it did not write (C11's conclusion), and the allocator never hands out a live
+    own (what C11 is about), none reads bytes it did not write (`staleRead`: established by no theorem of
+    C11; it rests on C09's differential and `c10-foreign`), and the allocator never hands out a live
     buffer (C20) — then for every connection `a`: its own operations alone, run from the initial heap,
     are fault-free too, and hand exactly the same buffers, call by call, to `a`'s `conn.Write` — the
     `pieces` of the pipeline model (a).  The projection of the interleaved run to `a` is `a`'s solo
